@@ -89,7 +89,7 @@ def spatial_gradient(axis):
 def adjoint_tests(which):
     """BOUNDED: inner-product (adjoint) tests for the linear companions and directional-derivative tests for the non-linear ones on
     seeded inputs: non-square and unequal pupil / mask shapes, real and complex masks and Lyot stops, shifts, node parameters, masked
-    and unmasked costs, DM geometries (shift, pad, crop) without rotation."""
+    and unmasked costs, Gumbel-softmax with frozen noise and annealed temperature, DM geometries (shift, pad, crop) without rotation."""
     import numpy as np
     rng = np.random.default_rng(Int('seed', 0, 10 ** 6))
     pr = get('prysm.propagation')
@@ -164,6 +164,27 @@ def adjoint_tests(which):
         cost2 = lambda xx: float((gb * act.DiscreteEncoder(act.Softmax(), levels).forward(xx)).sum())
         enc.forward(x)
         check('encoder-gradient', bool(np.isclose((enc.backprop(gb) * d).sum(), (cost2(x + h * d) - cost2(x - h * d)) / (2 * h), rtol=1e-5, atol=1e-8)))
+        # Gumbel-softmax: the noise is frozen by re-seeding the node's generator before every forward call, which makes forward a
+        # deterministic function; temperature given at construction and re-assigned on the live object (annealing, the documented use)
+        tau0, tau1 = float(rng.uniform(0.3, 2.5)), float(rng.uniform(0.3, 2.5))
+        gs = act.GumbelSoftmax(tau=tau0)
+        nseed = int(rng.integers(0, 2 ** 31))
+
+        def gforward(node, xx):
+            gs.rng = np.random.default_rng(nseed)
+            return node.forward(xx)
+        for tag, tau in (('construction', tau0), ('reassigned', tau1)):
+            gs.tau = tau
+            costg = lambda xx: float((gbar * gforward(gs, xx)).sum())
+            fd = (costg(x + h * d) - costg(x - h * d)) / (2 * h)
+            gforward(gs, x)
+            check('gumbel-softmax-jvp-tau-at-' + tag, bool(np.isclose((gs.backprop(gbar) * d).sum(), fd, rtol=1e-5, atol=1e-8)))
+        enc2 = act.DiscreteEncoder(gs, levels)
+        gs.tau = float(rng.uniform(0.3, 2.5))
+        coste = lambda xx: float((gb * gforward(enc2, xx)).sum())
+        fd = (coste(x + h * d) - coste(x - h * d)) / (2 * h)
+        gforward(enc2, x)
+        check('encoder-on-annealed-gumbel-gradient', bool(np.isclose((enc2.backprop(gb) * d).sum(), fd, rtol=1e-5, atol=1e-8)))
     elif which == 'costs':
         cst = get('prysm.x.optym.cost')
         Mo, D = rng.random((m, n)) + 0.2, rng.random((m, n)) + 0.2
